@@ -143,28 +143,51 @@ Section First.
       assert (Hs' : b :: bs = encode_frame t body ++ rest) by congruence. rewrite Hs'. exact Hh.
   Qed.
 
-  (** sessions: the only first message that can change the session table is an accepted Login *)
+  (** sessions: the only first messages that can change the session table are a Login whose handler
+      accepts and a Login whose handler crashes the process *)
+  Definition fs_state_cases (st : fs_state) (ev : fs_first_ev) (st' : fs_state) (out : fs_first_out) : Prop :=
+    (st' = st /\ fo_close out <> ServerDown) \/
+    (exists rid, fe_handler ev = HAccept rid /\ st' = fs_ins_session rid st /\ fo_act out = ActLogin /\
+                 fo_close out = KeepOpen) \/
+    (fe_handler ev = HCrash /\ st' = [] /\ fo_act out = ActLogin /\ fo_close out = ServerDown).
+
+  Ltac same_state :=
+    intros [= <- <-]; left; split; [reflexivity|];
+    unfold fs_wait_more, fs_closed; cbn; try destruct (fe_eof _); cbn; congruence.
+
   Theorem fs_first_step_state st ev st' out :
-    step st ev = Some (st', out) ->
-    st' = st \/ exists rid, fe_handler ev = HAccept rid /\ st' = fs_ins_session rid st /\ fo_act out = ActLogin.
+    step st ev = Some (st', out) -> fs_state_cases st ev st' out.
   Proof.
     unfold fs_first_step.
-    assert (Hh : forall s, handle st ev s = Some (st', out) ->
-                 st' = st \/ exists rid, fe_handler ev = HAccept rid /\ st' = fs_ins_session rid st /\ fo_act out = ActLogin).
+    assert (Hh : forall s, handle st ev s = Some (st', out) -> fs_state_cases st ev st' out).
     { intros s. unfold fs_handle_conn.
-      destruct (decode_frame reg s) as [e c a|r c a]; [intros [= <- _]; now left|].
-      destruct (fe_json ev); [intros [= <- _]; now left|intros [= <- _]; now left|].
-      destruct (dispatch_first tl tw tv (DOk r c a)); destruct (fe_handler ev) as [| |rid];
-        intros H; try discriminate; injection H as <- <-; try (now left).
-      right. exists rid. cbn. auto. }
-    assert (Hw : fs_wrapped reg tl tw tv st ev = Some (st', out) ->
-                 st' = st \/ exists rid, fe_handler ev = HAccept rid /\ st' = fs_ins_session rid st /\ fo_act out = ActLogin).
-    { unfold fs_wrapped. destruct (fe_inner ev); [apply Hh|intros [= <- _]; now left]. }
-    destruct (blen (fe_bytes ev) <? need); [intros [= <- _]; now left|].
+      destruct (decode_frame reg s) as [e c a|r c a]; [destruct (fs_needs_more e); same_state|].
+      destruct (fe_json ev); [same_state|same_state|].
+      destruct (dispatch_first tl tw tv (DOk r c a)); destruct (fe_handler ev) as [| |rid|] eqn:Eh;
+        try discriminate; try same_state.
+      - intros [= <- <-]. right. left. exists rid. cbn. auto.
+      - intros [= <- <-]. right. right. cbn. auto. }
+    assert (Hw : fs_wrapped reg tl tw tv st ev = Some (st', out) -> fs_state_cases st ev st' out).
+    { unfold fs_wrapped. destruct (fe_inner ev); [apply Hh|same_state]. }
+    destruct (blen (fe_bytes ev) <? need); [same_state|].
     destruct (is_prefix wsp (fe_bytes ev)); [exact Hw|].
-    destruct (fe_bytes ev) as [|b bs]; [intros [= <- _]; now left|].
+    destruct (fe_bytes ev) as [|b bs]; [same_state|].
     destruct (fs_tls_head b); [exact Hw|].
-    destruct force; [intros [= <- _]; now left|apply Hh].
+    destruct force; [same_state|apply Hh].
+  Qed.
+
+  (* the process can only die through a crashing handler behind a Login; never through an
+     unexpected or malformed first message *)
+  Theorem fs_down_only_by_crash st ev st' out :
+    step st ev = Some (st', out) -> fo_close out = ServerDown ->
+    fe_handler ev = HCrash /\ fo_act out = ActLogin /\ ~ ~ expected ev.
+  Proof.
+    intros Hs Hd.
+    destruct (fs_first_step_state st ev st' out Hs) as [[_ Hn]|[(rid & _ & _ & _ & Hk)|(Hh & _ & Ha & _)]];
+      [contradiction|congruence|].
+    repeat split; try assumption. intros Hbad.
+    destruct (fs_bad_first_confined st ev Hbad) as (out' & Hs' & _ & Ha' & _).
+    rewrite Hs in Hs'. injection Hs' as _ <-. congruence.
   Qed.
 End First.
 
@@ -358,7 +381,7 @@ Section Histories.
   Definition fs_touches (rid : bytes) (e : fs_event) : Prop :=
     match e with
     | EvStream _ r _ => r = rid
-    | EvFirst ev => fe_handler ev = HAccept rid
+    | EvFirst ev => fe_handler ev = HAccept rid \/ fe_handler ev = HCrash   (* a crash concerns everybody *)
     end.
 
   Lemma fs_step_keeps st e st' closed x :
@@ -367,8 +390,9 @@ Section Histories.
     unfold fs_step. destruct e as [ev|conn rid s]; cbn [fs_touches].
     - destruct (fs_first_step reg tl tw tv force need wsp st ev) as [[st1 out]|] eqn:E; [|discriminate].
       intros [= <- _] Hin Hnt.
-      destruct (fs_first_step_state reg tl tw tv force need wsp st ev st1 out E) as [->|(rid & Hh & -> & _)]; [assumption|].
-      apply fs_ins_keeps_others; [assumption|]. intros Heq. apply Hnt. congruence.
+      destruct (fs_first_step_state reg tl tw tv force need wsp st ev st1 out E)
+        as [[-> _]|[(rid & Hh & -> & _)|(Hh & _)]]; [assumption| |exfalso; apply Hnt; now right].
+      apply fs_ins_keeps_others; [assumption|]. intros Heq. apply Hnt. left. congruence.
     - destruct (fs_stream_step reg jok jnull st conn rid s) as [st1 out] eqn:E. intros [= <- _] Hin Hnt.
       apply (fs_stream_step_confined reg jok jnull st conn rid s st1 out E); [assumption|]. intros Heq. apply Hnt. congruence.
   Qed.
